@@ -104,6 +104,13 @@ class Device:
             sched.S.emit("fault_injected", exc=type(exc).__name__)
             self.port.inject_fault(exc)
 
+    def port_dies(self):
+        """the transport ends without an exception: the port object reports closed and reads return nothing"""
+        if not self.dead:
+            self.dead = True
+            sched.S.emit("fault_injected", exc="port-reports-closed")
+            self.port.is_open = False
+
     def drop_link(self, exc=None):
         """EOF / IO error now"""
         import serial
